@@ -50,6 +50,10 @@ def tcb_forged_part(ctx, role_filter, name='tcb-forged-segment', situations=None
         results = tcbrun.run_units(units, tier=ctx.tier, budget=budget, fn=tcbclosed.worker_run_closed)
     else:
         units = tcbspecs.all_units(situations, fin_split=not (shift and ctx.quick))
+        if shift and ctx.quick:
+            # quick tier of the relational check: one endpoint per phase (handshake, transfer with data in flight / buffered, close)
+            keep = {('synsent', 'A'), ('synrcvd', 'B'), ('estab', 'B'), ('estab_inflight', 'A'), ('estab_unread', 'B'), ('estab_ooo', 'B'), ('finwait1', 'A'), ('lastack', 'B')}
+            units = [u for u in units if (u['situation'], u['target']) in keep]
         results = tcbrun.run_units(units, tier=ctx.tier, budget=budget, fn=tcbspecs.worker_run_shift if shift else None)
     enc, mods = set(), set()
     viol_by_key = {}
@@ -124,3 +128,271 @@ def _z3v():
         return z3.get_version_string()
     except Exception:
         return '?'
+
+
+def message_part(ctx):
+    """C07: real Message MIR vs plain byte vectors"""
+    import multiprocessing as mp
+    from mirx import msgspec
+    part = Part('message-vs-byte-vectors', 'mirx (MIR symbolic executor) + z3 %s' % _z3v())
+    us = msgspec.units(ctx.tier)
+    budget = 1200 if ctx.quick else 3000
+    msgspec.worker(({'first_ops': ['slice_full'], 'first_targets': [0], 'depth': 1}, 600))      # load / dump MIR once before forking
+    with mp.get_context('fork').Pool(min(16, os.cpu_count() or 4)) as pool:
+        results = pool.map(msgspec.worker, [(u, budget) for u in us], chunksize=1)
+    enc, mods = set(), set()
+    seen = {}
+    for r in results:
+        part.paths += r['paths']
+        part.queries += r['stats'].get('queries', 0)
+        part.solver_time += r['stats'].get('solver_time', 0.0)
+        part.transitions += r['obligations']
+        enc |= set(r['encoded'])
+        mods |= set(r['models'])
+        for u in r['unsupported']:
+            part.inconclusive.append(u)
+        for v in r['violations']:
+            seen.setdefault(v['key'], (v, r['unit']))
+        u = r['unit']
+        part.units.append({'name': f'first op {u["first_ops"][0]} on M{u["first_targets"][0]}, {u["depth"]} operations',
+                           'desc': 'pool of 3 real messages (two chunks; window inside a shared buffer + empty chunk; clone cut at 1) vs plain byte lists; symbolic bytes and operands',
+                           'verdict': 'held' if not r['violations'] and not r['unsupported'] else ('violated' if r['violations'] else 'inconclusive'),
+                           'nontrivial': r['paths'] > 0,
+                           'detail': f'{r["paths"]} feasible paths, {r["obligations"]} comparisons, {r["stats"].get("queries", 0)} solver queries, {r["wall"]:.1f}s',
+                           'samples': r['samples'][:2]})
+    part.functions = sorted(re.sub(r'<impl at [^>]*>', '<impl>', e) for e in enc if not e.startswith('const:'))
+    part.assumptions = ['std models used (mirx/models.py): ' + ', '.join(sorted(mods)),
+                        'the generic one-line wrappers Message::new/header/slice (impl Into<..> dispatch) are bypassed: new_inner/header_inner/slice_inner and the six SliceRange::from impls are executed',
+                        'Arc<Vec<u8>> modelled as a shared immutable buffer (no MIR path writes through it)']
+    part.bounds = ('pool of 3 messages with <= 3 chunks over buffers of <= 4 symbolic bytes; operation sequences of length 2 (quick) / 3 (thorough) over cut, remove_front, '
+                   'six slice range forms, header(0..2 bytes), concatenate(other / clone of itself), clone; operands symbolic 0..=len+2 (so out-of-range arguments are included: '
+                   'they must panic exactly when the byte-vector operation is undefined)')
+    part.outside = 'Display/Debug formatting; longer messages / sequences than the bound; to_vec is covered through iter()'
+    # replay: the counterexample is re-run natively as a unit test in message.rs
+    items = []
+    for k, (v, u) in sorted(seen.items()):
+        items.append((k, v, u))
+    for k, v, u in items:
+        rp = os.path.join(replay_dir(ctx.prop), 'mirx-' + hashlib.sha1(k.encode()).hexdigest()[:12] + '.json')
+        ok_native, detail = message_native_replay(v)
+        if ok_native:
+            with open(rp, 'w') as f:
+                json.dump({'engine': 'mirx', 'property': ctx.prop, 'key': k, 'desc': v['desc'], 'values': v['values'], 'native': detail}, f, indent=1)
+            part.violations.append({'key': k, 'desc': v['desc'] + ' - confirmed natively: ' + detail[:200], 'replay': rp})
+        else:
+            part.inconclusive.append(f'counterexample for {k} did not reproduce natively ({detail[:300]})')
+    return part
+
+
+MSG_REPLAY = r'''
+use super::*;
+fn pool(b: &[u8]) -> (Vec<Message>, Vec<Vec<u8>>) {
+    // same pool as mirx/msgspec.py build_pool: b0..b2 body, b3..b4 header, b5..b8 buffer, b9 tail
+    let mut m0 = Message::new(vec![b[0], b[1], b[2]]);
+    m0.header(vec![b[3], b[4]]);
+    let r0 = vec![b[3], b[4], b[0], b[1], b[2]];
+    let mut m1 = Message::new(vec![b[5], b[6], b[7], b[8]]);
+    m1.slice(1..3);
+    m1.concatenate(Message::new(Vec::<u8>::new()));
+    m1.concatenate(Message::new(vec![b[9]]));
+    let r1 = vec![b[6], b[7], b[9]];
+    let mut m2 = m0.clone();
+    m2.cut(1);
+    let r2 = r0[1..].to_vec();
+    (vec![m0, m1, m2], vec![r0, r1, r2])
+}
+'''
+
+
+def message_native_replay(v):
+    """re-run the violating operation sequence natively on the real Message and on Vec<u8>; the violation is confirmed when they differ"""
+    from mirx import native
+    trace = v.get('desc', '')
+    m = re.match(r'^(.*?): (len\(\)|iter\(\)|byte|M0 ==)', trace)
+    seq = m.group(1) if m else ''
+    vals = v.get('values', {})
+    b = [int(vals.get(f'b{i}', i + 1)) & 0xff for i in range(16)]
+    ops = [x.strip() for x in seq.split(';') if x.strip() and x.strip() != 'initial pool']
+    body = ['#[test]\nfn mirx_replay_0() {', '    println!("\\nREPLAY-BEGIN mirx_replay_0");',
+            f'    let b: [u8; 16] = {b};', '    let (mut ms, mut rs) = pool(&b);', '    let mut extra: Option<(Message, Vec<u8>)> = None;', '    let _ = &mut extra;']
+    nb = 10
+    for op in ops:
+        mm = re.match(r'^M(\d)\.(.*)$', op)
+        if not mm:
+            return False, 'cannot render op ' + op
+        t, what = int(mm.group(1)), mm.group(2)
+        g = re.match(r'^cut\((\d+)\)$', what)
+        if g:
+            n = int(g.group(1))
+            body.append(f'    {{ let h = ms[{t}].cut({n}); let hr: Vec<u8> = rs[{t}].drain(..{n}).collect(); extra = Some((h, hr)); }}')
+            continue
+        g = re.match(r'^remove_front\((\d+)\)$', what)
+        if g:
+            body.append(f'    ms[{t}].remove_front({g.group(1)}); rs[{t}].drain(..{g.group(1)});')
+            continue
+        g = re.match(r'^slice\((.*)\)$', what)
+        if g:
+            r = g.group(1)
+            if r == '..':
+                body.append(f'    ms[{t}].slice(..);')
+            else:
+                a_, b_ = None, None
+                rr = re.match(r'^(\d*)\.\.(=?)(\d*)$', r)
+                a_, inc, b_ = rr.group(1), rr.group(2), rr.group(3)
+                if a_ and b_ and not inc and int(a_) > int(b_):
+                    body.append(f'    ms[{t}].slice({r}); rs[{t}] = Vec::new();')
+                else:
+                    body.append(f'    ms[{t}].slice({r}); rs[{t}] = rs[{t}][{r}].to_vec();')
+            continue
+        g = re.match(r'^header\((\d) bytes\)$', what)
+        if g:
+            k = int(g.group(1))
+            hb = ', '.join(f'b[{nb + i}]' for i in range(k))
+            body.append(f'    {{ let h: Vec<u8> = vec![{hb}]; ms[{t}].header(h.clone()); let mut n = h; n.extend_from_slice(&rs[{t}]); rs[{t}] = n; }}')
+            nb += k
+            continue
+        g = re.match(r'^concatenate\(clone of M(\d)\)$', what)
+        if g:
+            o = int(g.group(1))
+            body.append(f'    {{ let c = ms[{o}].clone(); ms[{t}].concatenate(c); let c2 = rs[{o}].clone(); rs[{t}].extend(c2); }}')
+            continue
+        if what == 'concatenate(clone of itself)':
+            body.append(f'    {{ let c = ms[{t}].clone(); ms[{t}].concatenate(c); let c2 = rs[{t}].clone(); rs[{t}].extend(c2); }}')
+            continue
+        g = re.match(r'^M(\d) = clone$', what)
+        if g:
+            o = int(g.group(1))
+            body.append(f'    ms[{o}] = ms[{t}].clone(); rs[{o}] = rs[{t}].clone();')
+            continue
+        return False, 'cannot render op ' + op
+    body.append('    let mut bad = Vec::new();')
+    body.append('    for i in 0..3 { if ms[i].len() != rs[i].len() || ms[i].to_vec() != rs[i] { bad.push(format!("M{} = {:?} (len {}) but bytes {:?}", i, ms[i].to_vec(), ms[i].len(), rs[i])); } }')
+    body.append('    if let Some((h, hr)) = &extra { if h.len() != hr.len() || &h.to_vec() != hr { bad.push(format!("cut-off part {:?} vs {:?}", h.to_vec(), hr)); } }')
+    body.append('    if (ms[0] == ms[1]) != (rs[0] == rs[1]) { bad.push("eq differs".to_string()); }')
+    body.append('    println!("OP 0 RESULT {}", if bad.is_empty() { "AGREE".to_string() } else { bad.join(" | ") });')
+    body.append('}')
+    out, rc = native.run_tests(MSG_REPLAY + '\n'.join(body), append_to='src/message.rs', test_filter='mirx_replay_0')
+    lines = native.op_lines(out)
+    if not lines:
+        if 'panicked' in out:
+            return ('panic' in v['key']), 'native run panicked: ' + out[out.find('panicked'):][:200]
+        return False, 'native replay did not run: ' + out[-300:]
+    return ('AGREE' not in lines[0]), lines[0]
+
+
+# ------------------------------------------------------------------------------ C11 reassembly
+
+REASM_REPLAY = r'''
+use super::*;
+use crate::protocols::ipv4::{ipv4_parsing::{ControlFlags, Ipv4Header, TypeOfService}, Ipv4Address};
+fn payload(d: usize, total: usize) -> Vec<u8> { (0..total).map(|i| ((i * 7 + d * 31 + 3) % 251) as u8).collect() }
+#[allow(clippy::too_many_arguments)]
+fn hdr(total_length: u16, off: u16, mf: bool, id: u16, src: [u8; 4], dst: [u8; 4], proto: u8, ttl: u8) -> Ipv4Header {
+    Ipv4Header { ihl: 5, type_of_service: TypeOfService::from(0u8), total_length, identification: id, fragment_offset: off,
+        flags: ControlFlags::new(true, !mf), time_to_live: ttl, protocol: proto, checksum: 0, source: Ipv4Address::new(src), destination: Ipv4Address::new(dst) }
+}
+'''
+
+
+def reasm_native_replay(v):
+    from mirx import native
+    u = v['unit']
+    vals = v.get('values', {})
+    g = lambda k, d=1: int(vals.get(k, d))
+    L = ['#[test]\nfn mirx_replay_0() {', '    println!("\\nREPLAY-BEGIN mirx_replay_0");', '    let mut r = Reassembly::new();', '    let mut bad: Vec<String> = Vec::new();']
+    dg = []
+    for d, n in enumerate(u['pieces']):
+        if n == 0:
+            continue
+        blocks = [max(1, min(2, g(f'blk{d}_{i}', 1))) for i in range(n - 1)]
+        last = max(1, min(16, g(f'last{d}', 5)))
+        total = sum(b * 8 for b in blocks) + last
+        src = [g(f's{d}_{i}', 10 + d) & 0xff for i in range(4)]
+        dst = [g(f'd{d}_{i}', 20 + d) & 0xff for i in range(4)]
+        proto, ident, ttl = g(f'proto{d}', 17) & 0xff, g(f'id{d}', 100 + d) & 0xffff, g(f'ttl{d}', 30) & 0xff
+        L.append(f'    let p{d} = payload({d}, {total});')
+        off = 0
+        pcs = []
+        for i in range(n):
+            ln = blocks[i] * 8 if i < n - 1 else last
+            pcs.append((off, ln, i < n - 1))
+            off += ln
+        dg.append({'n': n, 'pieces': pcs, 'total': total, 'hdr': (ident, src, dst, proto, ttl)})
+    L.append(f'    let mut got: Vec<std::collections::BTreeSet<usize>> = vec![Default::default(); {len(dg)}];')
+    L.append('    let mut token: Vec<Option<(BufId, Epoch)>> = vec![None; %d];' % len(dg))
+    cull = u.get('cull')
+    for pos, (d, i) in enumerate(u['order']):
+        off, ln, mf = dg[d]['pieces'][i]
+        ident, src, dst, proto, ttl = dg[d]['hdr']
+        if cull is not None and cull[0] == pos:
+            if cull[1] == 'stale':
+                L.append(f'    if let Some((b, e)) = token.iter().flatten().next().cloned() {{ if got.iter().any(|s| s.len() >= 2) {{ r.maybe_cull_segment(b, e.wrapping_sub(1)); }} }}')
+            else:
+                L.append(f'    if let Some(k) = token.iter().position(|t| t.is_some()) {{ let (b, e) = token[k].unwrap(); r.maybe_cull_segment(b, e); got[k].clear(); token[k] = None; }}')
+        L.append(f'    {{ let h = hdr({20 + ln}, {off // 8}, {"true" if mf else "false"}, {ident}, {src}, {dst}, {proto}, {ttl});')
+        L.append(f'      let res = r.receive_packet(h, Message::new(p{d}[{off}..{off + ln}].to_vec())); got[{d}].insert({i});')
+        L.append(f'      let want = got[{d}].len() == {dg[d]["n"]};')
+        L.append('      match res {')
+        L.append(f'        ReceivePacketResult::Complete(rh, rb) => {{ if !want {{ bad.push("step {pos}: complete too early".into()); }}')
+        L.append(f'            if rb.to_vec() != p{d} {{ bad.push(format!("step {pos}: body len {{}} differs from original len {{}}", rb.len(), p{d}.len())); }}')
+        L.append(f'            if rh.fragment_offset != 0 || !rh.flags.is_last_fragment() || rh.total_length as usize != {dg[d]["total"]} + 20 || rh.identification != {ident} {{ bad.push("step {pos}: header not original".into()); }}')
+        L.append(f'            got[{d}].clear(); token[{d}] = None; }}')
+        L.append(f'        ReceivePacketResult::Incomplete(_, b, e) => {{ if want {{ bad.push("step {pos}: complete missed".into()); }} token[{d}] = Some((b, e)); }}')
+        L.append('      } }')
+    L.append('    println!("OP 0 RESULT {}", if bad.is_empty() { "AGREE".to_string() } else { bad.join(" | ") });')
+    L.append('}')
+    out, rc = native.run_tests(REASM_REPLAY + '\n'.join(L), append_to='src/protocols/ipv4/reassembly.rs', test_filter='mirx_replay_0')
+    lines = native.op_lines(out)
+    if not lines:
+        if 'panicked' in out:
+            return ('panic' in v['key']), 'native run panicked: ' + out[out.find('panicked'):][:200]
+        return False, 'native replay did not run: ' + out[-400:]
+    return ('AGREE' not in lines[0]), lines[0]
+
+
+def reassembly_part(ctx):
+    import multiprocessing as mp
+    from mirx import reasmspec
+    part = Part('reassembly-vs-coverage-reference', 'mirx (MIR symbolic executor) + z3 %s' % _z3v())
+    us = reasmspec.units(ctx.tier)
+    budget = 900 if ctx.quick else 2400
+    reasmspec.worker((us[0], 600))
+    with mp.get_context('fork').Pool(min(16, os.cpu_count() or 4)) as pool:
+        results = pool.map(reasmspec.worker, [(u, budget) for u in us], chunksize=1)
+    enc, mods = set(), set()
+    seen = {}
+    for r in results:
+        part.paths += max(r['paths'], 1 if r['violations'] else 0)
+        part.queries += r['stats'].get('queries', 0)
+        part.solver_time += r['stats'].get('solver_time', 0.0)
+        part.transitions += r['obligations']
+        enc |= set(r['encoded'])
+        mods |= set(r['models'])
+        for u in r['unsupported']:
+            part.inconclusive.append(u)
+        for v in r['violations']:
+            seen.setdefault(v['key'], v)
+        u = r['unit']
+        part.units.append({'name': f'pieces {u["pieces"]}, arrival order {u["order"]}' + (f', expiry callback {u["cull"]}' if u.get('cull') else ''),
+                           'desc': 'datagrams with symbolic keys/TTL, pieces cut at symbolic block boundaries (1..2 blocks each, last piece 1..16 bytes), provenance payloads',
+                           'verdict': 'held' if not r['violations'] and not r['unsupported'] else ('violated' if r['violations'] else 'inconclusive'),
+                           'nontrivial': r['paths'] > 0,
+                           'detail': f'{r["paths"]} feasible paths, {r["obligations"]} arrivals checked, {r["stats"].get("queries", 0)} solver queries, {r["wall"]:.1f}s',
+                           'samples': r['samples'][:1]})
+    part.functions = sorted(re.sub(r'<impl at [^>]*>', '<impl>', e) for e in enc if not e.startswith('const:'))
+    part.assumptions = ['std models used (mirx/models.py): ' + ', '.join(sorted(mods)),
+                        'FxHashMap modelled as a finite map by structural key equality; BinaryHeap = the std algorithm over the crate\'s Fragment::cmp MIR',
+                        'payload abstracted to provenance extents (C07); two different datagrams with equal (src,dst,protocol,id) are excluded (indistinguishable by design)']
+    part.bounds = ('1-2 datagrams x 2-3 pieces; every arrival order of one datagram, interleavings of two, one duplicate at every position (all positions in thorough), re-sent datagram '
+                   'after completion, expiry callback with stale and current epoch; piece sizes symbolic (1..2 blocks, last piece 1..16 bytes); all header fields symbolic')
+    part.outside = 'more than 3 pieces / 2 datagrams; partially overlapping fragments (not producible by fragmenting one datagram); epoch wrap-around (65536 arrivals); the timer task in Ipv4Session'
+    for k, v in sorted(seen.items()):
+        rp = os.path.join(replay_dir(ctx.prop), 'mirx-' + hashlib.sha1(k.encode()).hexdigest()[:12] + '.json')
+        ok_native, detail = reasm_native_replay(v)
+        if ok_native:
+            with open(rp, 'w') as f:
+                json.dump({'engine': 'mirx', 'property': ctx.prop, 'key': k, 'desc': v['desc'], 'values': v['values'], 'unit': v['unit'], 'native': detail}, f, indent=1)
+            part.violations.append({'key': k, 'desc': v['desc'][:400] + ' - confirmed natively: ' + detail[:200], 'replay': rp})
+        else:
+            part.inconclusive.append(f'counterexample for {k} did not reproduce natively ({detail[:300]})')
+    return part
